@@ -179,7 +179,12 @@ class Ctx:
                     mpsrc = os.path.join(VERIF, "harness", "mparam_mini.h")
                 else:
                     mpsrc = os.path.join(self.snap, val)
-            shutil.copyfile(mpsrc, os.path.join(d, "gmp-mparam.h"))
+            mptxt = open(mpsrc).read()
+            for f in flags:         # thr:NAME=VALUE : one threshold of the tuning table overridden (any value the algorithm accepts is a valid configuration)
+                if f.startswith("thr:"):
+                    nm, _, val = f[4:].partition("=")
+                    mptxt += "\n#undef %s\n#define %s %s\n" % (nm, nm, val)
+            open(os.path.join(d, "gmp-mparam.h"), "w").write(mptxt)
             shutil.copyfile(os.path.join(self.orig, "gmp-impl.h"), os.path.join(d, "gmp-impl.h"))
             self.overlays[variant] = d
             return d
@@ -496,6 +501,31 @@ class Runner:
         ctx = self.ctx
         try:
             objs = [ctx.unit_obj(u, q.variant, native=True, extra=q.unit_defs) for u in q.units]
+            # C15 frame queries: the units whose static objects are watched are linked with their .data/.bss renamed
+            # into sections of their own (vfdata/vfbss), which the replay harness compares before and after the call
+            for u in getattr(q, "frame_units", []) or []:
+                o = ctx.unit_obj(u, q.variant, native=True, extra=q.unit_defs)
+                o2 = os.path.join(wd, "fr_" + os.path.basename(o))
+                rc, so, se = sh(["objcopy", "--set-section-flags", ".bss=alloc,load,contents,data", "--rename-section", ".bss=vfbss",
+                                 "--rename-section", ".data=vfdata", o, o2])
+                if rc:
+                    return "error", "objcopy failed: " + se[-300:]
+                objs.append(o2)
+            # C14 kernel queries: the real kernel, assembled by yasm from the snapshot, its entry symbols renamed to vkreal
+            for u in getattr(q, "asm_units", []) or []:
+                o = os.path.join(wd, "asm_" + re.sub(r"[^A-Za-z0-9]", "_", u) + ".o")
+                rc, so, se = sh(["yasm", "-f", "elf64", "-I", ctx.snap, "-I", os.path.join(ctx.snap, "mpn"), "-o", o, os.path.join(ctx.snap, u)], cwd=os.path.join(ctx.snap, "mpn"))
+                if rc:
+                    return "error", "yasm failed: " + se[-300:]
+                rc, so, se = sh(["nm", "-g", "--defined-only", o])
+                syms = [l.split()[-1] for l in so.splitlines() if l.split() and l.split()[-2] in ("T", "t")]
+                args = []
+                for k, s_ in enumerate(sorted(syms, key=lambda s_: (not s_.startswith("__gmpn"), s_))):
+                    args += ["--redefine-sym", "%s=%s" % (s_, "vkreal" if k == 0 else "vkreal_alias%d" % k)]
+                rc, so, se = sh(["objcopy"] + args + [o])
+                if rc:
+                    return "error", "objcopy failed: " + se[-300:]
+                objs.append(o)
         except Infra as e:
             return "error", str(e)
         v = "+".join(["native"] + [f for f in q.variant.split("+") if f not in ("exact", "uf", "ufc", "ufr")])
@@ -519,7 +549,12 @@ class Runner:
         open(os.path.join(rd, "replay.sh"), "w").write(
             "#!/bin/sh\n# replay of query %s (property %s)\n# harness: %s  defs: %s\n# units: %s\n"
             "exec %s/check %s --replay %s\n" % (q.name, ctx.prop, q.harness, " ".join(_defflags(q.defs)), " ".join(q.units), VERIF, ctx.prop, os.path.join(rd, "replay.json")))
-        json.dump({"property": ctx.prop, "query": q.name, "harness": q.harness, "defs": q.defs, "units": q.units, "unit_defs": q.unit_defs,
+        hrec = q.harness
+        if os.path.isabs(q.harness) and not q.harness.startswith(VERIF):
+            hrec = os.path.join(rd, "harness.c")        # generated harness: keep a copy next to the replay
+            if os.path.abspath(q.harness) != os.path.abspath(hrec):
+                shutil.copyfile(q.harness, hrec)
+        json.dump({"property": ctx.prop, "query": q.name, "harness": hrec, "defs": q.defs, "units": q.units, "unit_defs": q.unit_defs, "frame_units": getattr(q, "frame_units", []), "asm_units": getattr(q, "asm_units", []),
                    "variant": q.variant, "inputs": vals, "cbmc_property": getattr(q, "cex_prop", ""), "native_output": out[-2000:]},
                   open(os.path.join(rd, "replay.json"), "w"), indent=1)
         q.replay_path = os.path.join(rd, "replay.json")
